@@ -74,6 +74,22 @@ def setContentAt (i : Nat) : List Elem → List Elem
     | 0 => { e with content := true } :: es
     | i+1 => e :: setContentAt i es
 
+/-! ### the score of a candidate (`getImageScore` with the heuristics of `getLeadHeuristics`)
+
+`ImageDomDistanceScorer(25, first)`: `depthDiff` = depth of the first content text node minus depth of
+its nearest common ancestor(-or-self) with the image element; multiplier 1 below 4, 0.6 below 6, 0.2
+below 8, else 0 — `int(float64(25) * multiplier)` is 25, 15, 5, 0.  `ImageHasFigureScorer(15)`: 15 when
+the image element or one of its ancestors is a `figure`.  Both are capped by their maximum, which
+these values never exceed. -/
+
+def domDistanceScore (depthDiff : Nat) : Nat :=
+  if depthDiff < 4 then 25 else if depthDiff < 6 then 15 else if depthDiff < 8 then 5 else 0
+
+def hasFigureScore (fig : Bool) : Nat := if fig then 15 else 0
+
+def imageScore (depthDiff : Nat) (fig : Bool) : Int :=
+  ((min (domDistanceScore depthDiff) 25 + min (hasFigureScore fig) 15 : Nat) : Int)
+
 def leadIndex (score : Nat → Int) (es : List Elem) : Option Nat :=
   match lastContentText 0 none es with
   | none => none
